@@ -327,6 +327,8 @@ static void ep8_mul_reg_imp(ep8_t r, const ep8_t p, const bn_t k) {
 	size_t l, n;
 
 	bn_null(_k);
+	ep8_null(u);
+	ep8_null(v);
 
 	RLC_TRY {
 		bn_new(_k);
